@@ -138,11 +138,13 @@ def run(res, tier, seed):
                        "distinct by hash of (tree kind, recorded events); besides: the namespace-node order family (one event per context "
                        "element: the namespace axis, its unions with itself / single namespace nodes / attributes / children / self / parent, filtered subsets, "
                        "all of which must be delivered in the one order the axis shows, Trace_C12ns), and the result-tree-fragment family (a fragment built from a known tree, "
-                       "exsl:node-set(), unions / reverse axes / positional predicates from its root against XPathSem!Eval on that tree)" % (gidx, glen, ghist))
+                       "exsl:node-set(), unions / reverse axes / positional predicates from its root against XPathSem!Eval on that tree), and the id() family (every sequence of up to 4 tokens "
+                       "over the IDs of a document as string argument, node-set arguments holding token lists, as general value and as node list, on native and Xerces trees)" % (gidx, glen, ghist))
     nns, nns_ok = nsorder_family(res, wd, quick, seed)
     nrt, nrt_ok = rtf_family(res, wd, quick, seed)
-    res.cov["evaluations"] += nns + nrt
-    res.cov["traces_validated_against_impl"] += nns_ok + nrt_ok
+    nid, nid_ok = id_family(res, wd, quick, seed)
+    res.cov["evaluations"] += nns + nrt + nid
+    res.cov["traces_validated_against_impl"] += nns_ok + nrt_ok + nid_ok
     for ex in execs[len(execs) // 2: len(execs) // 2 + 3]:
         res.sample(ex)
     res.assumptions += ["DOMServices::isNodeAfter is modelled by index comparison in NodeListImpl (DomOrder MC shows them equal)",
@@ -265,6 +267,53 @@ def nsorder_family(res, wd, quick, seed):
     res.notes["namespace_order_contexts"] = len(events)
     res.notes["namespace_order_observations"] = sum(len(e["obs"]) for e in events)
     res.notes["namespace_order_contexts_with_3_or_more_nodes"] = sum(1 for e in events if len(e["pi"]) >= 3)
+    return len(events), len(events) - len(rejects)
+
+
+def id_family(res, wd, quick, seed):
+    """id() deliveries: EVERY sequence of up to 4 tokens over the IDs of a document (and a token that is no ID) as the string argument -
+    tokens out of document order, repeated, unknown -, and node-set arguments whose string-values are such token lists; asked for as a
+    general value and as a node list.  Trace_C02: the value is XPathSem!Eval's, delivered duplicate-free and in document order."""
+    import itertools, random
+    import xdm, xpgen
+    from xpgen import path, step, bin_, fn, lit, var, t_name, T_ANY, DOS
+    from props import c02
+    rng = random.Random(seed + 11)
+    iwd = os.path.join(wd, "idfam"); os.makedirs(iwd)
+    E, A, T, R = xdm.E, xdm.A, xdm.T, xdm.R
+    doc = R(E("a", E("b", T("i3 i1"), a=[A("id", "i1"), A("x", "i2 i3 i2")]), E("c", E("b", T("i4 zz i1 i3"), a=[A("id", "i3")]), a=[A("id", "i2"), A("y", "i4 i2")]),
+              E("b", T("i2 i1 i4"), a=[A("id", "i4"), A("x", "i1")]), a=[A("x", "i4 i3 i2 i1")]))
+    docs, flats = [doc], [xdm.flatten(doc, c02.ID_ATTRS)]
+    toks = ["i1", "i2", "i3", "i4", "zz"]
+    cases = []
+    for k in range(1, 5):
+        seqs = list(itertools.product(toks, repeat=k))
+        if quick and k == 4:
+            seqs = rng.sample(seqs, 160)
+        for ts in seqs:
+            e = fn("id", lit((" " if len(cases) % 7 == 0 else "") + " ".join(ts) + ("  " if len(cases) % 5 == 0 else "")))
+            cases.append((1, 1 + len(cases) % flats[0]["n"], 1, 1, e, {}))
+            if k >= 3:
+                cases.append((1, 1, 1, 1, fn("count", e), {}))
+    AT = lambda n_: step("attribute", t_name(n_))
+    nsargs = [path([DOS, step("child", t_name("b"))], abs_=True), path([DOS, AT("x")], abs_=True), path([DOS, AT("y")], abs_=True),
+              bin_("|", path([DOS, AT("x")], abs_=True), path([DOS, step("child", t_name("b"))], abs_=True)), path([DOS, step("child", T_ANY), step("attribute", T_ANY)], abs_=True),
+              path([step("child", T_ANY)]), path([step("attribute", T_ANY)]), var("e")]
+    n = flats[0]["n"]
+    for a_ in nsargs:
+        for ctx in range(1, n + 1):
+            for e in (fn("id", a_), fn("id", fn("id", a_)), bin_("|", fn("id", a_), fn("id", lit("i4 i1"))), fn("count", fn("id", a_))):
+                ids = sorted(rng.sample(range(1, n + 1), 3))
+                cases.append((1, ctx, 1, 1, e, {"e": {"t": "ns", "v": [[1, i, 0] for i in ids]}}))
+    events = []
+    for kind in ("eval", "nodelist"):
+        for tree in ("native", "xerces-built"):
+            evs, crashes = c02.run_cases(docs, flats, [c for c in cases if kind == "eval" or c[4].get("name") == "id" or c[4]["op"] == "bin"], iwd, kind=tree, mode=kind, tag="id" + kind + tree[:3])
+            for c, err, rc in crashes:
+                res.violation("evaluator process died (rc=%s) on %s: %s" % (rc, c["text"], err), [c])
+            events += evs
+    rejects, st = c02.validate(res, events, flats, iwd, "c12id", lambda ev: None, PROP)
+    res.notes["id_family_evaluations"] = len(events)
     return len(events), len(events) - len(rejects)
 
 
